@@ -22,6 +22,22 @@ class PathLimit(BaseException):
     pass
 
 
+def _guarded_check(solver, assumptions, timeout_ms):
+    """solver.check with a watchdog: nlsat occasionally ignores the timeout parameter, so a timer thread
+    interrupts the context a little after the deadline (the result is then `unknown`)."""
+    import threading
+
+    timer = threading.Timer(timeout_ms / 1000.0 * 1.5 + 3.0, z3.main_ctx().interrupt)
+    timer.daemon = True
+    timer.start()
+    try:
+        return solver.check(*assumptions)
+    except z3.Z3Exception:
+        return z3.unknown
+    finally:
+        timer.cancel()
+
+
 class Ctx:
     cur = None
 
@@ -91,9 +107,16 @@ class Ctx:
     def check(self, *extra):
         self.nq += 1
         t = time.time()
-        r = self.s.check(*self.pc, *extra)
+        r = _guarded_check(self.s, list(self.pc) + list(extra), self._cur_timeout())
         self.tq += time.time() - t
         return r
+
+    def _cur_timeout(self):
+        return getattr(self, "_tmo_now", self.timeout_ms)
+
+    def set_timeout(self, ms):
+        self._tmo_now = ms
+        self.s.set("timeout", ms)
 
     def branch(self, cond):
         cond = z3.simplify(cond)
@@ -165,23 +188,44 @@ class Ctx:
         t0 = time.time()
         reach = "deferred"  # decided once per path by explore(): pc only grows, so the final pc being sat covers all
         np_ = z3.Not(p)
-        self.s.set("timeout", min(5000, self.timeout_ms))
-        r = self.check(np_)
         relaxed = False
+        r = z3.unknown
+        big = sum(len(f.sexpr()) for f in self.pc[-40:]) + len(np_.sexpr()) > 20000
+
+        def _abstraction():
+            # every square t*t of a non-constant term becomes a fresh non-negative real.  Any model of the
+            # original extends to the abstraction, so `unsat` carries over (sat/unknown are not used).
+            fs, side = _abstract_squares(list(self.pc) + [np_])
+            self.nq += 1
+            t1 = time.time()
+            r3 = _guarded_check(self.s, fs + side, self._cur_timeout())
+            self.tq += time.time() - t1
+            return r3
+
+        if big:
+            self.set_timeout(min(15000, self.timeout_ms))
+            if _abstraction() == z3.unsat:
+                r, relaxed = z3.unsat, True
+        if r == z3.unknown:
+            self.set_timeout(min(5000, self.timeout_ms))
+            r = self.check(np_)
         if r == z3.unknown:
             # dropping hypotheses is sound for `unsat`: retry without the integer-rounding facts of the path
-            self.s.set("timeout", self.timeout_ms)
+            self.set_timeout(self.timeout_ms)
             pc2 = [f for f in self.pc if not _has_toint(f)]
             if len(pc2) < len(self.pc):
                 self.nq += 1
                 t1 = time.time()
-                r2 = self.s.check(*pc2, np_)
+                r2 = _guarded_check(self.s, pc2 + [np_], self.timeout_ms)
                 self.tq += time.time() - t1
                 if r2 == z3.unsat:
                     r, relaxed = r2, True
-            if r == z3.unknown:
+            if r == z3.unknown and not big:
+                if _abstraction() == z3.unsat:
+                    r, relaxed = z3.unsat, True
+            if r == z3.unknown and not big:
                 r = self.check(np_)
-        self.s.set("timeout", self.timeout_ms)
+        self.set_timeout(self.timeout_ms)
         rec = {"name": name, "result": str(r), "reach": str(reach), "path": len(self.results), "info": info,
                "secs": round(time.time() - t0, 2), "relaxed": relaxed}
         if r == z3.sat:
@@ -193,7 +237,9 @@ class Ctx:
 
     def canary(self, name, wrong_prop):
         """A deliberately wrong specification; must be refutable (sat) somewhere."""
+        self.set_timeout(min(5000, self.timeout_ms))
         r = self.check(z3.Not(_zb(wrong_prop)))
+        self.set_timeout(self.timeout_ms)
         self.results.append({"name": name, "result": str(r), "canary": True})
 
     def output(self, name, val):
@@ -240,6 +286,35 @@ def _has_toint(f, _cache={}):
         todo.extend(t.children())
     _cache[k] = found
     return found
+
+
+def _abstract_squares(formulas):
+    cache, sq = {}, {}
+    side = []
+
+    def walk(t):
+        k = t.get_id()
+        if k in cache:
+            return cache[k]
+        if not z3.is_app(t) or t.num_args() == 0:
+            cache[k] = t
+            return t
+        ch = t.children()
+        if t.decl().kind() == z3.Z3_OP_MUL and len(ch) == 2 and ch[0].eq(ch[1]) and not z3.is_rational_value(ch[0]) \
+                and not z3.is_int_value(ch[0]) and ch[0].num_args() > 0:
+            kk = ch[0].get_id()
+            if kk not in sq:
+                v = z3.Real(f"sq!{len(sq)}") if ch[0].is_real() else z3.Int(f"sq!{len(sq)}")
+                sq[kk] = v
+                side.append(v >= 0)
+            cache[k] = sq[kk]
+            return sq[kk]
+        new = [walk(c) for c in ch]
+        r = t.decl()(*new) if any(not a.eq(b) for a, b in zip(new, ch)) else t
+        cache[k] = r
+        return r
+
+    return [walk(f) for f in formulas], side
 
 
 def _pyval(mv):
@@ -516,9 +591,11 @@ class SNum:
             k = float(k)
             if k.is_integer():
                 n = int(abs(k))
-                r = SNum(z3.IntVal(1) if self.is_int else z3.RealVal(1))
-                for _ in range(n):
-                    r = r * self
+                if n == 0:
+                    return SNum(z3.IntVal(1) if self.is_int else z3.RealVal(1))
+                r = self
+                for _ in range(n - 1):
+                    r = r * self  # x**2 is literally (* x x): recognisable as a square
                 return r if k >= 0 else 1 / r
             if k == 0.5:
                 return self.sqrt()
